@@ -15,7 +15,7 @@ import json
 import os
 
 from vlib import common, report, flow
-from translate import footprint
+from translate import footprint, gen_smf_domains
 
 
 def run(prop, tier, seed, replay=None):
@@ -28,6 +28,8 @@ def run(prop, tier, seed, replay=None):
         "the Log16 sharing model (Model/Domain.lean `Share`) is a hand transcription of modular-log16.inl's special member functions, "
         "tied to the code by the ASan histories",
         "RNS system objects are covered by C14's histories",
+        "special-member-function table (translate/gen_smf_domains.py): syntactic extraction of which source member initialises / is assigned to which data member; "
+        "the constants zero/one/mOne are excused (re-derived from the copied members; compared dynamically), base-class sub-objects are rows of their own class",
     ]
     try:
         table = footprint.extract()
@@ -35,8 +37,28 @@ def run(prop, tier, seed, replay=None):
     except Exception as e:
         V.violation("footprint", {"obligation": "footprint extraction (translate/footprint.py)", "what": str(e)[-3000:]}, no_failing_input=True)
         table = []
-    L = flow.lean_stage(V, ["GivaroModel.Props.C16", "GivaroModel.Props.C16Static"], "GivaroModel/Props/C16.lean",
-                        extra_theorem_files=["GivaroModel/Props/C16Static.lean"])
+    smf = []
+    try:
+        smf = gen_smf_domains.extract()
+        gen_smf_domains.emit(smf)
+    except Exception as e:
+        V.violation("smf_domains", {"obligation": "special-member-function table of the domain classes (translate/gen_smf_domains.py)", "what": str(e)[-3000:]},
+                    no_failing_input=True)
+    L = flow.lean_stage(V, ["GivaroModel.Props.C16", "GivaroModel.Props.C16Static", "GivaroModel.Props.C16SMF"], "GivaroModel/Props/C16.lean",
+                        extra_theorem_files=["GivaroModel/Props/C16Static.lean", "GivaroModel/Props/C16SMF.lean"])
+    # the rows that falsify Props/C16SMF.domain_copies_memberwise_complete (same predicate, for the report)
+    incomplete = []
+    for c in smf:
+        for o in c["ops"]:
+            if o["how"] in ("absent", "deleted", "implicit-unused-or-deleted"):
+                continue
+            iscopy = o["op"] in ("copy-ctor", "copy-assign")
+            for f, _ty in c["fields"]:
+                ok = o["how"] in ("user", "implicit") and (f in ("zero", "one", "mOne") or o["per"].get(f) == [f]) and \
+                    not (iscopy and f in o.get("conditional", []))
+                if not ok:
+                    incomplete.append("%s %s (%s): member %s <- %s%s" % (c["inst"], o["op"], o["how"], f, o["per"].get(f, []),
+                                                                         " [conditional]" if f in o.get("conditional", []) else ""))
     # audit of the second file happens through the first module only if imported: audit it separately
     hidden = [(t["cls"], t["fn"], s) for t in table for s in t["statics"] if s not in ("local:randstate", "write:randstate", "Rational::flags")]
     if hidden and L["ok"]:
@@ -55,12 +77,21 @@ def run(prop, tier, seed, replay=None):
     if hidden and not any("impl_" in p for p, _ in V.violations):
         V.violation("hidden_state", {"obligation": "Givaro.Props.C16.no_hidden_state", "what": "member functions of domain classes touch undocumented static storage",
                                      "functions": ["%s::%s -> %s" % h for h in hidden[:40]]}, no_failing_input=True)
+    if incomplete and not any("impl_" in p for p, _ in V.violations):
+        V.violation("thm_domain_copies_memberwise_complete",
+                    {"obligation": "Givaro.Props.C16SMF.domain_copies_memberwise_complete",
+                     "what": "a copy operation of a domain class does not copy every data member unconditionally from the same member of its source "
+                             "(regenerated special-member-function table); no history of the harness showed a wrong result",
+                     "rows": incomplete[:40]}, no_failing_input=True)
+    elif incomplete:
+        V.note("special-member-function table rows that are not member-wise complete: %s" % "; ".join(incomplete[:12]))
     kinds = sorted({l.split(" ")[1] for _, l, _ in res["results"] if l.startswith("hist ")})
     flow.fill_coverage(V, L, res, counts,
                        rule="per domain type: every legal history up to length 3 (thorough 5) over {construct(p0|p1), copy-construct, assign, self-assign, "
                             "destroy, probe} on three slots, plus seeded random histories up to length 9 (thorough 12); non-trivial = at least two operations; "
                             "distinct = distinct (type, history)",
-                       extra={"domain_types": kinds, "footprint_rows": len(table),
+                       extra={"domain_types": kinds, "footprint_rows": len(table), "smf_domain_class_instantiations": len(smf),
+                              "smf_rows_not_memberwise_complete": len(incomplete),
                               "footprint_rows_with_statics": len([t for t in table if t["statics"]])},
                        nontrivial=lambda l: len(l.split(" = ")[0].split(" ")) > 3)
     V.finish()
